@@ -50,6 +50,7 @@ class C16(Prop):
                           rep=lambda c: GF.is_rep(c[1]), policies=two)]
         return [Layer("FST(2,<=2)", un(lambda: GT.fst_cases(2, 0, 2)), rep=None, policies=two + ["2@str", "3@int"]),
                 Layer("FST(2,3)", un(lambda: GT.fst_cases(2, 3, 3)), rep=rep, policies=two),
+                Layer("FST(3 states,<=2)", un(lambda: GT.fst_cases(3, 0, 2)), rep=rep, policies=two),
                 Layer("pairs T2xT1 /3", lambda: (("bin", "T2", i, "T1", j) for i in range(len(pool("T2")))
                                                  for j in range(len(pool("T1"))) if (i + j) % 3 == 0), policies=two),
                 Layer("pairs T1xT2 /3", lambda: (("bin", "T1", i, "T2", j) for i in range(len(pool("T1")))
